@@ -420,6 +420,11 @@ func sameLenFamily(u ssa.Value) map[ssa.Value]bool {
 			if a := singleSiteArg(x); a != nil {
 				add(a, d+1)
 			}
+		case *ssa.UnOp:
+			// a captured variable: the value written to it
+			if sv := cellValue(x); sv != nil {
+				add(sv, d+1)
+			}
 		case *ssa.Call:
 			// a helper of the module that returns its operand or an addressable copy of it: what it may return
 			if g := x.Call.StaticCallee(); g != nil && inModule(g) && len(g.Blocks) > 0 && g.Signature.Results().Len() == 1 {
@@ -459,6 +464,14 @@ func singleSiteArg(p *ssa.Parameter) ssa.Value {
 	if idx < 0 {
 		return nil
 	}
+	if fn.Parent() != nil {
+		// a function literal: the one place where its value is called - directly, or as the callback
+		// parameter of the one function it is handed to
+		if c := closureCallSite(fn); c != nil && idx < len(c.Call.Args) {
+			return c.Call.Args[idx]
+		}
+		return nil
+	}
 	var site *ssa.Call
 	n := 0
 	for _, g := range functionsOf(pkgOf(fn)) {
@@ -483,6 +496,134 @@ func singleSiteArg(p *ssa.Parameter) ssa.Value {
 		return nil
 	}
 	return site.Call.Args[idx]
+}
+
+// closureCallSite: the single call that runs the function literal fn: the literal is made in one
+// place and its value is used once - called there, or passed as an argument to a function of the
+// module whose parameter is used only to be called, in one place.
+func closureCallSite(fn *ssa.Function) *ssa.Call {
+	mc := closureSite(fn)
+	var val ssa.Value
+	if mc != nil {
+		val = mc
+	} else {
+		// a literal that captures nothing is the function itself
+		n := 0
+		for _, b := range fn.Parent().Blocks {
+			for _, ins := range b.Instrs {
+				var buf [8]*ssa.Value
+				for _, op := range ins.Operands(buf[:0]) {
+					if op != nil && *op == ssa.Value(fn) {
+						n++
+					}
+				}
+			}
+		}
+		if n != 1 {
+			return nil
+		}
+		val = fn
+	}
+	var uses []ssa.Instruction
+	if mc != nil {
+		if mc.Referrers() == nil {
+			return nil
+		}
+		for _, r := range *mc.Referrers() {
+			if _, isDbg := r.(*ssa.DebugRef); !isDbg {
+				uses = append(uses, r)
+			}
+		}
+	} else {
+		for _, b := range fn.Parent().Blocks {
+			for _, ins := range b.Instrs {
+				var buf [8]*ssa.Value
+				for _, op := range ins.Operands(buf[:0]) {
+					if op != nil && *op == val {
+						uses = append(uses, ins)
+					}
+				}
+			}
+		}
+	}
+	if len(uses) != 1 {
+		return nil
+	}
+	c, ok := uses[0].(*ssa.Call)
+	if !ok {
+		return nil
+	}
+	if c.Call.Value == val && !c.Call.IsInvoke() {
+		return c // called where it is made
+	}
+	h := c.Call.StaticCallee()
+	if h == nil || !inModule(h) || len(h.Blocks) == 0 || len(h.Params) != len(c.Call.Args) {
+		return nil
+	}
+	for i, a := range c.Call.Args {
+		if a != val {
+			continue
+		}
+		prm := h.Params[i]
+		if prm.Referrers() == nil {
+			return nil
+		}
+		var call *ssa.Call
+		for _, r := range *prm.Referrers() {
+			switch x := r.(type) {
+			case *ssa.DebugRef:
+			case *ssa.Call:
+				if x.Call.Value != ssa.Value(prm) || x.Call.IsInvoke() || call != nil {
+					return nil
+				}
+				call = x
+			default:
+				return nil
+			}
+		}
+		return call
+	}
+	return nil
+}
+
+// blockInFunction: the block of fn in which ins runs: its own block, or the block of the one call
+// (static, or of the callback) through which the function around ins is run from fn.
+func blockInFunction(ins ssa.Instruction, fn *ssa.Function) *ssa.BasicBlock {
+	for i := 0; i < 6 && ins != nil; i++ {
+		f := ins.Parent()
+		if f == fn {
+			return ins.Block()
+		}
+		var site *ssa.Call
+		if f.Parent() != nil {
+			site = closureCallSite(f)
+		} else if sites := staticSitesInPkg(f); len(sites) == 1 {
+			site = sites[0]
+		}
+		if site == nil {
+			return nil
+		}
+		ins = site
+	}
+	return nil
+}
+
+// staticSitesInPkg: the static calls of f in its own package.
+func staticSitesInPkg(f *ssa.Function) []*ssa.Call {
+	var out []*ssa.Call
+	if pkgOf(f) == nil {
+		return nil
+	}
+	for _, g := range functionsOf(pkgOf(f)) {
+		for _, b := range g.Blocks {
+			for _, ins := range b.Instrs {
+				if c, ok := ins.(*ssa.Call); ok && c.Call.StaticCallee() == f {
+					out = append(out, c)
+				}
+			}
+		}
+	}
+	return out
 }
 
 // crossNorm follows a value across the boundaries of single-use helpers: a parameter of a function
@@ -551,7 +692,7 @@ func crossReaches(v, target ssa.Value) bool {
 func isLenOf(v ssa.Value, fam map[ssa.Value]bool) bool {
 	v = crossNorm(v)
 	recv, _, ok := reflectValueCall(v, "Len")
-	return ok && fam[recv]
+	return ok && (fam[recv] || fam[throughCell(recv)])
 }
 
 func c19Partition(r *Run, ic *iterCopy) []string {
@@ -711,6 +852,13 @@ func c19Partition(r *Run, ic *iterCopy) []string {
 				}
 			}
 		}
+		// function literals made here (a callback that collects the groups)
+		for _, a := range reachFns[i].AnonFuncs {
+			if !seenFn[a] {
+				seenFn[a] = true
+				reachFns = append(reachFns, a)
+			}
+		}
 	}
 	if len(slices) != 1 {
 		check("append u.Slice(pos,e)", false, "")
@@ -799,12 +947,15 @@ func c19Partition(r *Run, ic *iterCopy) []string {
 		hb := loPhi.Block()
 		if ifi, ok := hb.Instrs[len(hb.Instrs)-1].(*ssa.If); ok {
 			if bo, ok := ifi.Cond.(*ssa.BinOp); ok {
+				// (the block in the loop's own function from which the group is cut: the Slice itself, or
+				// the call that runs the helper / callback it sits in)
+				cutBlock := blockInFunction(sl, hb.Parent())
 				lt := (bo.Op == token.LSS && nv(bo.X) == lo && isLen(bo.Y)) || (bo.Op == token.GTR && isLen(bo.X) && nv(bo.Y) == lo)
-				if lt && blockReaches(hb.Succs[0], sl.Block(), false) {
+				if lt && cutBlock != nil && blockReaches(hb.Succs[0], cutBlock, false) {
 					whileOK = true
 				}
 				ge := (bo.Op == token.GEQ && nv(bo.X) == lo && isLen(bo.Y)) || (bo.Op == token.LEQ && isLen(bo.X) && nv(bo.Y) == lo)
-				if ge && blockReaches(hb.Succs[1], sl.Block(), false) {
+				if ge && cutBlock != nil && blockReaches(hb.Succs[1], cutBlock, false) {
 					whileOK = true
 				}
 			}
@@ -891,6 +1042,14 @@ func c19Partition(r *Run, ic *iterCopy) []string {
 							}
 						}
 					}
+					// the accumulator is a captured variable: read from its cell, and the result written back to it
+					if ld, ok := c.Call.Args[0].(*ssa.UnOp); ok && ld.Op == token.MUL && c.Referrers() != nil {
+						for _, r4 := range *c.Referrers() {
+							if st, ok := r4.(*ssa.Store); ok && st.Addr == ld.X && st.Val == ssa.Value(c) {
+								appended = true
+							}
+						}
+					}
 				}
 			}
 		}
@@ -941,6 +1100,11 @@ var lengthKinds = map[int]bool{kArray: true, kChan: true, kMap: true, kSlice: tr
 // lenKindOf: the reflect.Kind of the reflect.Value expression e for a value of class c (-1: unknown/panics).
 func lenKindOf(p *pwPath, e ssa.Value, param ssa.Value, c lenClass) int {
 	e = p.resolve(e)
+	if e == p.resolve(param) {
+		if _, isIface := e.Type().Underlying().(*types.Interface); !isIface {
+			return c.kind // the classified value is a reflect.Value itself
+		}
+	}
 	call, ok := e.(*ssa.Call)
 	if !ok {
 		return -1
